@@ -13,9 +13,10 @@ LEMMAS = {}
 
 
 class Lemma:
-    def __init__(self, name, vars_, stmt, induct=None, uses=(), pats=None, tags=(), hints=None, doc='', ih_instances=None):
+    def __init__(self, name, vars_, stmt, induct=None, uses=(), pats=None, tags=(), hints=None, doc='', ih_instances=None, defs=None):
         self.name, self.vars, self.stmt, self.induct, self.uses = name, list(vars_), stmt, induct, tuple(uses)
         self.ih_instances = ih_instances
+        self.defs = defs          # instances of definitions used as hypotheses; each is its own obligation (proved from the definitions)
         self.pats, self.tags, self.hints, self.doc = pats, tuple(tags), hints, doc
         LEMMAS[name] = self
 
@@ -51,4 +52,9 @@ class Lemma:
                 hyps.append(t.implies(t.gt(vs[var], t.I(base)), ih))
         if self.hints:
             hyps.extend(self.hints(vs))
-        return [Obligation('lemma/' + self.name, hyps, self.stmt(vs), kind='lemma', tags=self.tags)]
+        out = []
+        if self.defs:
+            for i, d in enumerate(self.defs(vs)):
+                out.append(Obligation('lemma/%s/definition-instance-%d' % (self.name, i), [], d, kind='lemma-def', tags=self.tags))
+                hyps.append(d)
+        return out + [Obligation('lemma/' + self.name, hyps, self.stmt(vs), kind='lemma', tags=self.tags)]
